@@ -133,6 +133,82 @@ pub(crate) fn callback_point(id: &'static str) {
 	}
 }
 
+// ---------------------------------------------------------------------------
+// Gates: process-wide one-shot holds for threads the harness does not own
+// (the tokio workers that run the background tasks of a multi-thread runtime).
+// ---------------------------------------------------------------------------
+
+struct Gate {
+	id: &'static str,
+	armed: bool,
+	waiting: usize,
+	passed: u64,
+}
+
+static GATES: std::sync::Mutex<Vec<Gate>> = std::sync::Mutex::new(Vec::new());
+static GATES_CV: std::sync::Condvar = std::sync::Condvar::new();
+
+/// Arms the gate: the next thread that reaches `gate_point(id)` blocks there until `open_gate`.
+pub fn close_gate(id: &'static str) {
+	let mut g = GATES.lock().unwrap();
+	match g.iter_mut().find(|x| x.id == id) {
+		Some(x) => x.armed = true,
+		None => g.push(Gate { id, armed: true, waiting: 0, passed: 0 }),
+	}
+}
+
+/// Opens the gate (and leaves it open): a thread held at it continues.
+pub fn open_gate(id: &'static str) {
+	let mut g = GATES.lock().unwrap();
+	if let Some(x) = g.iter_mut().find(|x| x.id == id) {
+		x.armed = false;
+	}
+	GATES_CV.notify_all();
+}
+
+/// Opens and forgets every gate.
+pub fn reset_gates() {
+	let mut g = GATES.lock().unwrap();
+	for x in g.iter_mut() {
+		x.armed = false;
+	}
+	GATES_CV.notify_all();
+	g.retain(|x| x.waiting > 0);
+}
+
+/// (threads held at the gate now, threads that have gone through it so far).
+pub fn gate_state(id: &'static str) -> (usize, u64) {
+	let g = GATES.lock().unwrap();
+	g.iter().find(|x| x.id == id).map(|x| (x.waiting, x.passed)).unwrap_or((0, 0))
+}
+
+pub(crate) fn gate_point(id: &'static str) {
+	let mut g = GATES.lock().unwrap();
+	if !g.iter().any(|x| x.id == id) {
+		return;
+	}
+	if let Some(x) = g.iter_mut().find(|x| x.id == id) {
+		if x.armed {
+			x.waiting += 1;
+		} else {
+			x.passed += 1;
+			return;
+		}
+	}
+	loop {
+		g = GATES_CV.wait(g).unwrap();
+		match g.iter_mut().find(|x| x.id == id) {
+			Some(x) if x.armed => continue,
+			Some(x) => {
+				x.waiting -= 1;
+				x.passed += 1;
+				return;
+			}
+			None => return,
+		}
+	}
+}
+
 /// Process-wide event counters the harness reads to show that an exploration
 /// really exercised value-log reads and file removal.
 pub static VLOG_POINTER_READS: std::sync::atomic::AtomicU64 = std::sync::atomic::AtomicU64::new(0);
@@ -388,6 +464,14 @@ impl Tree {
 		if let Some(tm) = self.core.task_manager.lock().unwrap().as_ref() {
 			tm.wake_up_memtable();
 			tm.wake_up_level();
+		}
+	}
+
+	/// (flush task inside its working section, level-compaction task inside its working section).
+	pub fn verif_tasks_running(&self) -> (bool, bool) {
+		match self.core.task_manager.lock().unwrap().as_ref() {
+			Some(tm) => tm.verif_running(),
+			None => (false, false),
 		}
 	}
 
